@@ -41,7 +41,12 @@ pub fn to_decimal(d: &DecV) -> Decimal {
     let lo = (d.mant & 0xffff_ffff) as u32;
     let mid = ((d.mant >> 32) & 0xffff_ffff) as u32;
     let hi = ((d.mant >> 64) & 0xffff_ffff) as u32;
-    Decimal::from_parts(lo, mid, hi, d.neg, d.scale)
+    let mut r = Decimal::from_parts(lo, mid, hi, d.neg, d.scale);
+    if d.neg && d.mant == 0 {
+        // from_parts normalises the sign of zero; a caller can still pass a negative zero
+        r.set_sign_negative(true);
+    }
+    r
 }
 
 pub fn from_decimal(d: &Decimal) -> DecV {
